@@ -33,6 +33,7 @@ CONSTANTS MaxOps,       \* steps per plan
           SchemaLossy,  \* TRUE = as built: CreateCollectionParam.Schema (entity.Schema of SDK v2.4.2) cannot carry
                         \*        nullable / default_value of a source field
           WithFail,     \* enumerate failing downstream calls
+          Pres,         \* subset of {"none", "hop"}: replication stamp already present on the source message
           Salts         \* sampling indices: the driver draws one random content per (class, salt, VERIF_SEED)
 
 DbKinds   == {"CreateDatabase", "DropDatabase", "AlterDatabase"}
@@ -101,12 +102,16 @@ ObjChoices(k)    == IF k \in ObjKinds THEN {"live", "dropped"} ELSE {"live"}
 MemberChoices(k) == IF k \in ListKinds THEN MemberLists ELSE {<<>>}
 SchemaChoices(k) == IF k = "EvCreateCollection" THEN {"basic", "v25"} ELSE {"na"}
 RidChoices(k)    == IF k = "EvCreateCollection" THEN BOOLEAN ELSE {FALSE}
+\* pre = "hop": the source message already carries a replication stamp of an earlier hop (cascade A -> B -> C:
+\* IsReplicate set, an older MsgTimestamp, a foreign replicate id); the request must carry THIS hop's stamp.
+\* Varied only for op messages with a live parent, no injected failure and at most one list member.
+PreChoices(k, o, ms, f) == IF k \notin EvKinds /\ o = "live" /\ ~f /\ Len(ms) <= 1 THEN Pres ELSE {"none"}
 MessagesOf(k) ==
-    {[shape |-> "one", kind |-> k, obj |-> o, members |-> ms, fail |-> f, schema |-> sc, rid |-> r, salt |-> z] :
-        o \in ObjChoices(k), ms \in MemberChoices(k), f \in FailChoices, sc \in SchemaChoices(k),
-        r \in RidChoices(k), z \in Salts}
+    {m \in [shape : {"one"}, kind : {k}, obj : ObjChoices(k), members : MemberChoices(k), fail : FailChoices,
+            schema : SchemaChoices(k), rid : RidChoices(k), salt : Salts, pre : Pres] :
+        m.pre \in PreChoices(k, m.obj, m.members, m.fail)}
 MalformedMsg(s, z) == [shape |-> s, kind |-> "na", obj |-> "live", members |-> <<>>, fail |-> FALSE, schema |-> "na",
-                       rid |-> FALSE, salt |-> z]
+                       rid |-> FALSE, salt |-> z, pre |-> "none"]
 
 VARIABLES cur,   \* the message of the last step
           res,   \* its observable result [calls |-> Seq(request), err |-> BOOLEAN]
